@@ -107,6 +107,9 @@ def run(chk):
 
 def r3(chk):
     idx = chk.idx
+    # v is "computed from those CVRs": the list handed in reaches the margin computation as given (not de-duplicated or filtered)
+    aud.same_name_arguments(chk, "C03.R3", REL, "Assertion.set_all_margins_from_cvrs", "Assertion.set_margin_from_cvrs",
+                            "the CVR list reaches the margin computation as given", strict=True)
     smc = chk.fn(REL, "Assertion.set_margin_from_cvrs")
     tx = Tx()
     tx.signatures = {"self.assorter.mean": ["cvr_list", "use_style"]}
